@@ -43,7 +43,7 @@ RULE = ("case = family U: history (3-8 revisions, 2-3 branches, merges, tags, gh
         "either converted something or was refused; distinct = (family, source format/layout, target format/step, outcome, "
         "pending-state class)")
 CASES = {"quick": 96, "thorough": 1400}
-BUDGET_S = {"quick": 45, "thorough": 800}
+BUDGET_S = {"quick": 35, "thorough": 800}
 MIN_EVALS = {"quick": 100, "thorough": 1200}
 FLOORS = {
     "oracle_tip": 60,
@@ -507,14 +507,19 @@ def make_layout(rng, area, main_path, layout, shared_trees):
     from breezy.controldir import ControlDir
 
     mb = Branch.open(main_path)
+    # standalone layouts sit either beside or (own repository forced) underneath the shared repository, so that
+    # to_use_shared is a real transition that has to move history
+    under = rng.random() < 0.5
+    p = os.path.join(area, "shared", "subj") if under else os.path.join(area, "subj")
     if layout in ("tree", "branch"):
-        p = os.path.join(area, "subj")
-        mb.controldir.sprout(p, create_tree_if_local=(layout == "tree"))
+        mb.controldir.sprout(p, create_tree_if_local=(layout == "tree"), force_new_repo=True)
     elif layout == "checkout":
-        p = os.path.join(area, "subj")
-        mb.create_checkout(p, lightweight=False)
+        if under:
+            mb.controldir.sprout(p, force_new_repo=True)
+            Branch.open(p).bind(mb)
+        else:
+            mb.create_checkout(p, lightweight=False)
     elif layout == "lightweight":
-        p = os.path.join(area, "subj")
         mb.create_checkout(p, lightweight=True)
     else:
         p = os.path.join(area, "shared", "subj")
